@@ -216,6 +216,7 @@ func build(n int, thorough bool) *fam {
 
 var thorough bool
 var lastFam *fam
+var electedErr error
 
 // buildElected: a validator-set change inside the epoch the target closes. On a prelude, block p1 carries a vote
 // transaction electing key X (not a federation member); checkpoint p2 closes that epoch: the votes for p2 still
@@ -227,7 +228,13 @@ func buildElected() *fam {
 	net.AddKey(chainkd.RootXPrv([]byte{0xab, 0xcd})) // index 4 = X (not the node's own key)
 	P, err := chainlab.NewPrelude(net, 16)
 	if err != nil {
-		ev.Fatal("prelude: %v", err)
+		// a rejected prelude block is not a statement about justification: the coordinator caps this family
+		// (no history of it is handed out, so a worker never gets here)
+		if par.IsWorker() {
+			ev.Fatal("prelude: %v", err)
+		}
+		electedErr = err
+		return nil
 	}
 	w := chainlab.NewWorld(net, P.Tip, P.Base)
 	tv := labnet.Tx([]labnet.Out{P.U[0]}, []*types.TxOutput{types.NewVoteOutput(*consensus.BTMAssetID, 100000000, labnet.Prog(0x30), net.Pubs[4][:], nil), types.NewOriginalTxOutput(*consensus.BTMAssetID, chainlab.UAmount-100000000-labnet.Fee, labnet.Prog(0x31), nil)})
@@ -273,7 +280,6 @@ func buildElected() *fam {
 	hist("elected-old-set-header-next-epoch", B(p1), B(p2), B(p3), add(chainlab.Event{Kind: chainlab.EvBlockSL, Block: p4, Src: G, Signers: []int{0}, Slot: 1}), R(), B(p5))
 	return f
 }
-
 
 // buildMulti: ONE target with supermajority links from TWO sources. Chain c1..c7 (E=2): A=c2, B=c4, C=c6. Every
 // validator (n=4) takes one of: no vote for C, A->C, B->C, A->C then later B->C, B->C then later A->C; the votes that
@@ -516,6 +522,10 @@ func main() {
 			f = buildMulti(run.Thorough())
 		} else {
 			f = build(n, run.Thorough())
+		}
+		if f == nil {
+			run.Capped(fmt.Sprintf("family elected-validator: could not be set up: %v", electedErr))
+			continue
 		}
 		for i := range f.hists {
 			items = append(items, []int{n, i})
